@@ -992,6 +992,27 @@ class Interp(object):
                     if e.is_const() and e.lo == 0:
                         return AV.const(j - p.off)
                 raise OutOfBounds('strlen over %s without terminator' % p.arr.name)
+        if bcn in ('memcmp', '__builtin_memcmp') and len(args) == 3:
+            pa, pb, cnt = self.rvalue(fn, args[0], env), self.rvalue(fn, args[1], env), self.rvalue(fn, args[2], env)
+            if isinstance(pa, PV) and isinstance(pb, PV) and isinstance(cnt, AV) and cnt.is_const():
+                for j in range(cnt.lo):
+                    ea, eb = self.load(('elem', PV(pa.arr, pa.off + j))), self.load(('elem', PV(pb.arr, pb.off + j)))
+                    ua = AV(vals=[v & 0xFF for v in ea.vals], deps=ea.deps) if ea.vals is not None else None
+                    ub = AV(vals=[v & 0xFF for v in eb.vals], deps=eb.deps) if eb.vals is not None else None
+                    if ua is None or ub is None:
+                        raise Split(_pick(ea.deps | eb.deps))
+                    if ua.is_const() and ub.is_const():
+                        if ua.lo != ub.lo:
+                            return AV.const(-1 if ua.lo < ub.lo else 1)
+                        continue
+                    if not (ua.vals & ub.vals):
+                        if ua.hi < ub.lo:
+                            return AV.const(-1)
+                        if ua.lo > ub.hi:
+                            return AV.const(1)
+                        return AV(vals=[-1, 1], deps=ea.deps | eb.deps)
+                    raise Split(_pick(ea.deps | eb.deps))
+                return AV.const(0)
         g = self.P.fns.get(n.get('callee'))
         if g is not None and g.body is not None:
             vals = []
